@@ -68,3 +68,6 @@ Proof. exact tie_alg_texts_known. Qed.
 Theorem c03_alg_texts_known_texts : forall d cat name e,
   str_is_blank (lookup_name cat name) = false -> db_get d cat (lookup_name cat name) = Some e -> alg_texts d cat name = Some (known_texts e).
 Proof. exact alg_texts_known_texts. Qed.
+Theorem c03_tie_gss_lookup : forall cat name,
+  (String.eqb cat "kex" && starts_with "gss-" name) = src_gss_lookup_text cat name /\ (String.eqb cat "kex" && starts_with "gss-" name) = src_gss_lookup_json cat name.
+Proof. exact tie_gss_lookup. Qed.
